@@ -69,12 +69,29 @@ impl Life {
         self.ctx.with_deadline(zksync_concurrency::time::Deadline::Infinite)
     }
     /// Cancels `ctx` and waits for the given tasks to finish.
+    /// A task that is still pending when the system is quiescent after cancellation can never finish;
+    /// unfinished scopes cannot be dropped (they abort the process), so the process exits with code 3
+    /// (reported as inconclusive by the driver).
     pub async fn end<T>(self, tasks: Vec<tokio::task::JoinHandle<T>>) -> Vec<Result<T, tokio::task::JoinError>> {
         self.clock.advance(LIFE + LIFE);
         let mut out = vec![];
-        for t in tasks {
-            out.push(t.await);
+        for mut t in tasks {
+            match until_quiescent(&mut t).await {
+                Some(r) => out.push(r),
+                None => {
+                    println!("INCONCLUSIVE: a task of the code under test did not terminate after its context was cancelled");
+                    std::process::exit(3);
+                }
+            }
         }
         out
+    }
+    /// Result of a finished task as text: Ok(debug of value) / Err(first panic text).
+    pub fn task_outcome<T: std::fmt::Debug>(r: Result<T, tokio::task::JoinError>) -> Result<T, String> {
+        match r {
+            Ok(v) => Ok(v),
+            Err(e) if e.is_panic() => Err(crate::take_last_panic().unwrap_or_else(|| "panic in a task".into())),
+            Err(e) => Err(format!("task failed: {e}")),
+        }
     }
 }
